@@ -406,18 +406,21 @@ class Ctx:
     # -- finish ---------------------------------------------------------------------
     def finish(self) -> int:
         os.makedirs(os.path.join(VERIF, "evidence"), exist_ok=True)
-        os.makedirs(os.path.join(VERIF, "replays"), exist_ok=True)
+        # replays of runs against another tree (VERIF_REPO) are kept apart from those against /repo
+        rdir = os.path.join(VERIF, "replays") if os.path.realpath(REPO) == "/repo" \
+            else os.path.join(VERIF, "replays", "other_tree")
+        os.makedirs(rdir, exist_ok=True)
         lines: list[str] = []
         n_viol = 0
         for i, v in enumerate(self.violations):
-            path = os.path.join(VERIF, "replays", f"{self.prop}_{i}.json")
+            path = os.path.join(rdir, f"{self.prop}_{i}.json")
             with open(path, "w", encoding="utf-8") as f:
                 json.dump({"property": self.prop, "kind": "counterexample", "seed": self.seed,
                            "tier": self.tier, **v}, f, indent=1, default=repr, ensure_ascii=True)
             lines.append(f"VIOLATION property={self.prop} replay={path}")
             n_viol += 1
         if self.unproved and not self.violations:
-            path = os.path.join(VERIF, "replays", f"{self.prop}_unproved.json")
+            path = os.path.join(rdir, f"{self.prop}_unproved.json")
             with open(path, "w", encoding="utf-8") as f:
                 json.dump({"property": self.prop, "kind": "unproved", "seed": self.seed,
                            "tier": self.tier, "no_longer_checks": self.unproved,
